@@ -51,10 +51,18 @@ end
 mutual
 def subWordsOk : SV → Bool
   | .node k attrs ks _ =>
-    (match k, attrs with
-     | .subWord, [off, sz] => off + sz ≤ 256
-     | .shifted, [off] => off < 256
-     | _, _ => true) && subWordsOkList ks
+    (match k, attrs, ks with
+     | .subWord, [off, sz], _ => off + sz ≤ 256
+     -- a shifted field must end inside the word as well
+     | .shifted, [off], [.node .subWord [_, sz] _ _] => off < 256 && off + sz ≤ 256
+     | .shifted, [off], _ => off < 256
+     -- the spans of a packed encoding: (offset, size) pairs
+     | .packed, spans, _ =>
+       let rec ok : List Nat → Bool
+         | o :: sz :: r => o + sz ≤ 256 && ok r
+         | _ => true
+       ok spans
+     | _, _, _ => true) && subWordsOkList ks
 def subWordsOkList : List SV → Bool
   | [] => true
   | k :: ks => subWordsOk k && subWordsOkList ks
